@@ -60,3 +60,17 @@ Inductive hop := HAdd (id salt : bytes) | HResize (n : Z).
 Definition lower (o : hop) : op :=
   match o with HAdd id salt => Add (pre_hash id salt) | HResize n => Resize n end.
 Definition empty_cache (capacity : Z) := {| cap := capacity; active := []; archive := [] |}.
+
+(* --- one process, many services and configuration generations ------------------------------ *)
+(* every service instance (of any generation) checks handshakes against the cache slot it was
+   given; the server passes the same slot (&s.replayCache) to every service it ever creates *)
+Definition store := nat -> cache.
+Definition supd (st : store) (i : nat) (c : cache) : store := fun j => if Nat.eqb j i then c else st j.
+Fixpoint prun (ref : nat -> nat) (st : store) (pl : list (nat * op)) : store * list bool :=
+  match pl with
+  | [] => (st, [])
+  | (sv, o) :: r =>
+      let '(c', out) := step (st (ref sv)) o in
+      let '(st', outs) := prun ref (supd st (ref sv) c') r in
+      (st', out :: outs)
+  end.
